@@ -531,6 +531,21 @@ def run(prog: Program, rep, thorough: bool) -> None:
     check_coercion_identity(prog, rep, 'C07.R3')
     rep.rule('C07.R4', 'no plain number in a fixed unit is handed to a parameter that reads bare numbers in a preferred unit', 3)
     check_number_handoff(prog, rep, 'C07.R4')
+    # a memoised function must not read the preference: its answers are frozen at the preference of the first call
+    n_memo = 0
+    for f in prog.all_funcs():
+        d = C.memo_decorator(f)
+        if d is None or f.module.name in PRESENTATION_MODULES:
+            continue
+        n_memo += 1
+        hit = C.reads_preferred_units(prog, f)
+        if hit:
+            rep.fail('C07.R3', f.module.path, f.node.lineno, f.qualname, f'memo:{f.qualname}',
+                     f'{f.qualname} is memoised with @{d} and {hit}: a bare number is read in the unit preferred at the first '
+                     f'call with that number and the answer is served from the cache after the preference has changed')
+        else:
+            rep.ok('C07.R3', f.where, f'memoised {f.qualname} does not read the preferred units')
+    rep.extra['memoised_functions'] = n_memo
 
 
 CON = 'py_ballisticcalc/conditions.py'
@@ -550,6 +565,7 @@ VARIANTS = [
     Variant('danger-space-distance-slot', 'break', [(TD, 'PreferredUnits.target_height(target_height)', 'PreferredUnits.distance(target_height)')], 'C07.R2', 'the defect repaired by cd2aa9f', 'pass'),
     Variant('ammo-default-powder-temp-bare', 'break', [(MUN, 'PreferredUnits.temperature(Temperature.Celsius(15) if powder_temp is None else powder_temp)', 'PreferredUnits.temperature(59.0 if powder_temp is None else powder_temp)')], 'C07.R2', 'the default follows the temperature preference (59 C, 59 K)'),
     Variant('multibc-hands-floats-to-dragmodel', 'break', [('py_ballisticcalc/drag_model.py', '    return DragModel(bc, drag_table, weight, diameter, length)', '    return DragModel(bc, drag_table, weight >> Weight.Grain, diameter >> Distance.Inch, length)')], 'C07.R4', 'seeded change C07/5'),
+    Variant('icao-conditions-memoised-on-bare-altitude', 'break', [(CON, '    @staticmethod\n    def icao(altitude: Union[float, Distance] = 0,', '    @staticmethod\n    @lru_cache(maxsize=64)\n    def icao(altitude: Union[float, Distance] = 0,'), (CON, 'import math\nimport warnings\n', 'import math\nimport warnings\nfrom functools import lru_cache\n')], 'C07.R3', 'seeded change C07/4 in spirit'),
     Variant('twin-or-zero-float', 'twin', [(CON, 'PreferredUnits.angular(look_angle or 0)', 'PreferredUnits.angular(look_angle or 0.0)')], None),
     Variant('twin-is-none-form', 'twin', [(CON, 'PreferredUnits.angular(relative_angle or 0)', 'PreferredUnits.angular(0 if relative_angle is None else relative_angle)')], None),
 ]
